@@ -183,7 +183,7 @@ func (x *simulator) run(steps []step) {
 			x.e.R2 = x.e.R2<<8 | uint64(x.m.get(ea))
 		case sAcc:
 			x.access()
-		case sCallNop:
+		case sCallNop, sTouch0:
 		case sCallGrow, sGrow:
 			x.m.grow()
 		case sIf:
